@@ -10,14 +10,21 @@ RULE = ("cases are generated per helper (workload, range, linspace, logspace, cl
         "the span, or a grid with >= 3 points, or a data set with >= 3 distinct values; distinct by case text. "
         "Closest-element lists cover the whole finite double range (scaled by 2^e, elements of the order of DBL_MAX, neighbours 1..1000 ulp or a relative 1e-16..1e-6 apart, "
         "subnormals/signed zeros, mixed magnitudes) with targets on and 0..1000 ulp / relative 1e-16..1e-6 off elements and midpoints; nearest is decided in exact rational arithmetic "
-        "with the a-priori slack 2^-51 of the two rounded distances; grids also at scales 1e-290..1e290 and with nearly equal end points")
+        "with the a-priori slack 2^-51 of the two rounded distances; grids also at scales 1e-290..1e290 and with nearly equal end points. "
+        "Every way of calling a helper is driven: Range(max), Range(min,max) with the default step, Lists_Equal on lists of lists, Transpose_Lists(v1,v2), DataPoint with the default weight, "
+        "the list templates at int and at double (signed zeros, NaN, infinities as elements), Median twice on the vector it reorders. "
+        "Statistics run over the whole finite double range (data scaled by 2^e up to DBL_MAX and down to subnormals, |x| >> spread at relative 1e-16..1e-3, neighbours 1..1000 ulp apart, mixed magnitudes, "
+        "even-length sets whose middle elements straddle zero, n = 1, 2, odd/even) against exact rational references with a-priori rounding slack, and the laws are checked inside one process "
+        "(op laws / wlaws: data, 2^e * data, data + t, rotated data; power-of-two scalings must be reproduced exactly)")
 LEVEL_TEXT = ("Theorems (Coq, unbounded, all listed in evidence.coverage.theorems): Workload_Distribution meets its full specification for every workers >= 1 and every tasks (zero workers exit); "
               "Range enumerates exactly [min, min+-step, ...) with ceil(|max-min|/step) elements for step > 0 (a non-positive step makes the ascending loop diverge: model outcome None, outside the quantifier); "
               "Lists_Equal/Flatten/List_Contains/Find_Indices/Combine/Sub_List (entries, clamping, empty cases)/Transpose (rectangular, ragged -> exit, empty -> empty) against the standard list functions; "
               "Locate_Closest_Location returns an in-range index of a nearest element for every sorted non-empty list (ties, out-of-range targets), exits on empty/unsorted lists, and its order-only part holds for any strict total order (doubles without NaN); "
               "Linear_Space/Log_Space count, end points, equal spacing (in the logarithm), strict monotonicity, degenerate requests -> [min] (over R); mean/variance/standard deviation/median under translation, scaling and "
-              "permutation (insertion sort is a function of the multiset), Weighted_Average with equal weights = (mean, s/sqrt N) (over R). "
-              "Not theorems: rounding behaviour of the floating-point grids and statistics (covered by correspondence, bit-identical, and by S4 with a-priori rounding slack); that std::nth_element/upper_bound/is_sorted meet their specifications. "
+              "permutation (insertion sort is a function of the multiset), Weighted_Average with equal weights = (mean, s/sqrt N) (over R), also for data points with the default weight; "
+              "Range(max) = Range(0,max) and Range(min,max) enumerate the ascending/descending unit-step range; Lists_Equal on lists of lists is equality; Transpose_Lists(v1,v2) is the list of pairs or exits; "
+              "a second Median on the reordered vector gives the same value and the vector stays a permutation of the data; Median({a,b}) = Arithmetic_Mean({a,b}). "
+              "Not theorems: the scaling/permutation laws of Weighted_Average with unequal weights (S4: exact rational evaluation of Cochran's formula); rounding behaviour of the floating-point grids and statistics (covered by correspondence, bit-identical, and by S4 with a-priori rounding slack); that std::nth_element/upper_bound/is_sorted meet their specifications. "
               "The Gallina model is the term that is extracted and run against the C++ helpers on every run, and every clause of the property is also evaluated on the implementation's output.")
 LEVEL_NOTE = ("Coq 8.16.1 kernel; theorems over Z/nat/lists are axiom-free, theorems over R use the standard library's real-number axioms (listed in the evidence); "
               "hand-written model tied by differential correspondence (extraction with ExtrOcamlBasic only); std::nth_element/upper_bound/is_sorted modelled by their specifications")
@@ -124,6 +131,309 @@ def closest_wide(rng, count):
     return cs
 
 
+# ---- statistics: exact rational references and the a-priori rounding model ------------------------------------------------
+# u = 2^-53 (round to nearest), gamma_k = k u (with 1% head room for the higher-order terms), gradual underflow: every operation
+# whose result is subnormal adds an absolute error of at most 2^-1075.  Overflow is not part of the rounding model: where the
+# textbook evaluation order (plain accumulation, two-pass variance, (e1 + e2) / 2, Cochran's sums as written) must exceed
+# DBL_MAX in an intermediate although data and result are representable, a wrong answer carries the region suffix
+# :sum-overflow / :square-overflow (a known limitation, K-C19-1); everywhere else the clause is checked at full strength.
+UR = Fraction(1, 2 ** 53)
+TINY = Fraction(1, 2 ** 1074)
+FMAX = Fraction(DBL_MAX)
+
+
+def gam(k): return Fraction(k) * UR * Fraction(101, 100)
+def finite(x): return isinstance(x, (int, float)) and not (math.isnan(x) or math.isinf(x))
+
+
+def sqrt_bounds(q):
+    """Fractions lo <= sqrt(q) <= hi of relative width < 2^-100"""
+    if q <= 0: return Fraction(0), Fraction(0)
+    num, den = q.numerator, q.denominator
+    k = max(0, (220 - (num.bit_length() - den.bit_length())) // 2 + 1)
+    r = math.isqrt((num << (2 * k)) // den)
+    return Fraction(r, 1 << k), Fraction(r + 1, 1 << k)
+
+
+def sum_overflows(X):
+    """does the left-to-right accumulation of X (Fractions) possibly leave the double range: |prefix| + its rounding error >= DBL_MAX"""
+    P = Fraction(0); Q = Fraction(0)
+    for k, x in enumerate(X, 1):
+        P += x; Q += abs(x)
+        if abs(P) + gam(k) * Q >= FMAX: return True
+    return False
+
+
+STAT_NAME = {"mean": "Arithmetic_Mean", "variance": "Variance", "stddev": "Standard_Deviation", "median": "Median"}
+
+
+class StatRef:
+    """exact mean / variance / median of one data set (list of finite doubles) with the tolerance of the rounding model"""
+
+    def __init__(self, d):
+        self.d = d; n = self.n = len(d); X = self.X = [Fraction(x) for x in d]
+        self.m = sum(X) / n; self.A = sum(abs(x) for x in X) / n
+        self.sumov = sum_overflows(X)
+        self._v = None
+
+    def mean(self): return self.m, 2 * gam(self.n + 1) * self.A + TINY, (":sum-overflow" if self.sumov else "")
+
+    def _var(self):
+        if self._v is None:
+            n = self.n; D2 = sum((x - self.m) ** 2 for x in self.X)
+            Em = gam(n + 1) * self.A + TINY                    # |computed mean - mean|
+            T = D2 + n * Em * Em                               # sum of (x_i - computed mean)^2, exactly D2 + n (mean error)^2
+            v = D2 / (n - 1)
+            tol = 2 * (n * Em * Em + gam(n + 4) * T) / (n - 1) + (n + 2) * TINY
+            reg = ":sum-overflow" if self.sumov else (":square-overflow" if T * (1 + gam(n + 4)) >= FMAX else "")
+            self._v = (v, tol, reg)
+        return self._v
+
+    def variance(self): return self._var()
+
+    def stddev(self):
+        v, tol, reg = self._var()
+        lo = sqrt_bounds(max(Fraction(0), v - tol))[0] * (1 - 2 * UR); hi = sqrt_bounds(v + tol)[1] * (1 + 2 * UR)
+        return lo, hi, reg
+
+    def median(self):
+        s = sorted(self.X); n = self.n
+        if n % 2: return s[n // 2], Fraction(0), ""
+        a, b = s[n // 2 - 1], s[n // 2]
+        return (a + b) / 2, 2 * UR * max(abs(a), abs(b)) + TINY, (":sum-overflow" if abs(a + b) > FMAX else "")
+
+
+def _key(x):
+    """a double up to its bit pattern (NaN canonical)"""
+    x = float(x)
+    return "nan" if x != x else (x, math.copysign(1.0, x))
+
+
+def _same(a, b): return _key(a) == _key(b) if (isinstance(a, (int, float)) and isinstance(b, (int, float))) else a == b
+
+
+def stat_check(op, ref, got, sigop=None, what=""):
+    """the definition clause for one statistic of one data set; [] or [(signature, message)]"""
+    sigop = sigop or op; n = ref.n
+    if op in ("variance", "stddev") and n < 2: return []
+    if op == "stddev":
+        lo, hi, reg = ref.stddev()
+        ok = (finite(got) and lo <= Fraction(got) <= hi) or (got == math.inf and hi >= FMAX)
+        exp = float(lo) if lo <= FMAX else math.inf
+    else:
+        exp_q, tol, reg = getattr(ref, op)()
+        ok = (finite(got) and abs(Fraction(got) - exp_q) <= tol) or (got == math.inf and exp_q + tol >= FMAX) or (got == -math.inf and exp_q - tol <= -FMAX)
+        exp = float(exp_q) if abs(exp_q) <= FMAX else (math.inf if exp_q > 0 else -math.inf)
+    if ok: return []
+    return [(f"{sigop}:definition{reg}", f"{STAT_NAME[op]}{what} = {got!r}, the definition gives {exp!r} (n = {n}, data between {min(ref.d)!r} and {max(ref.d)!r})")]
+
+
+class WavgRef:
+    """exact weighted mean and Cochran standard error, SE^2 = N/((N-1) W^2) sum w_i^2 (v_i - avg)^2, with a-priori error bounds for the
+    sums as the library writes them (sum1 - 2 avg sum2 + avg^2 sum3; each of the three terms is of the order n M^2, M = max|v| max|w|)"""
+
+    def __init__(self, vals, ws):
+        n = self.n = len(vals); V = [Fraction(x) for x in vals]; Wt = [Fraction(x) for x in ws]
+        self.vals = vals; self.ws = ws
+        W = sum(Wt); P = [a * b for a, b in zip(V, Wt)]; self.W = W
+        self.ok = W > 0 and all(w > 0 for w in Wt)
+        if not self.ok: return
+        avg = self.avg = sum(P) / W; wbar = W / n
+        absP = sum(abs(x) for x in P)
+        self.tol_avg = 2 * (gam(n + 1) * absP + gam(n + 1) * abs(avg) * W + n * TINY) / W + TINY
+        self.reg_avg = ":sum-overflow" if (sum_overflows(P) or sum_overflows(Wt)) else ""
+        if n < 2: self.se2 = None; return
+        K = Fraction(n, n - 1) / W / W
+        t = [x - wbar * avg for x in P]; c = [w - wbar for w in Wt]
+        T1 = sum(x * x for x in t); S2 = sum(a * b for a, b in zip(c, t)); S3 = sum(x * x for x in c)
+        self.se2 = K * sum((w * (v - avg)) ** 2 for v, w in zip(V, Wt))
+        M = max(abs(x) for x in V) * max(Wt)
+        d2 = 320 * UR * (n * M / W) ** 2 + K * n * TINY * (3 + 2 * abs(avg) + avg * avg) + TINY      # bound on |computed SE^2 - SE^2|
+        self.d2 = d2
+        big = max([T1, abs(2 * avg * S2), avg * avg, avg * avg * S3, abs(T1 - 2 * avg * S2 + avg * avg * S3), self.se2] + [x * x for x in t])
+        self.reg_se = self.reg_avg or (":square-overflow" if big * (1 + Fraction(1, 10 ** 6)) >= FMAX else "")
+
+    def check(self, got_avg, got_se, sigop, what=""):
+        out = []
+        if not self.ok: return out
+        if not ((finite(got_avg) and abs(Fraction(got_avg) - self.avg) <= self.tol_avg)):
+            out.append((f"{sigop}:mean{self.reg_avg}", f"weighted average{what} = {got_avg!r}, the definition gives {float(self.avg)!r}"))
+        if self.se2 is not None:
+            lo = sqrt_bounds(max(Fraction(0), self.se2 - self.d2))[0] * (1 - 4 * UR); hi = sqrt_bounds(self.se2 + self.d2)[1] * (1 + 4 * UR)
+            # where the error bound of the three cancelling sums exceeds SE^2 itself (|average| >> spread, unequal weights) the computed SE^2 may be
+            # negative rounding noise, and its square root NaN: admitted by the rounding model of the formula as written
+            if not ((finite(got_se) and lo <= Fraction(got_se) <= hi) or (got_se == math.inf and hi >= FMAX) or (got_se != got_se and self.se2 - self.d2 < 0)):
+                out.append((f"{sigop}:standard-error{self.reg_se}", f"standard error{what} = {got_se!r}, Cochran's formula gives {float(sqrt_bounds(self.se2)[0])!r} (admissible {float(lo)!r} .. {float(hi)!r})"))
+        return out
+
+
+def _pow2(x):
+    m, e = math.frexp(abs(x)); return x != 0 and m == 0.5
+
+
+def _clip_ldexp(x, e):
+    try: return _fin(math.ldexp(x, e))
+    except OverflowError: return math.copysign(DBL_MAX, x)
+
+
+def stat_data(rng, n):
+    """one data set of n finite doubles from the whole double range; returns (class, list)"""
+    cls = rng.choice(["closest-like", "closest-like", "offset", "offset", "straddle", "straddle", "top", "ordinary"])
+    if cls == "closest-like":       # scaled by 2^e / order of DBL_MAX / neighbours a few ulp apart / subnormals / mixed magnitudes
+        c2, l = closest_lists(rng, n); rng.shuffle(l); cls = "wide-" + c2
+    elif cls == "offset":           # |x| >> spread: a common value anywhere in the range, relative spread 1e-16 .. 1e-3
+        c = rng.choice([-1, 1]) * rng.choice([10 ** rng.uniform(-300, 300), 2.0 ** rng.randint(-1000, 1000), 0.9 * DBL_MAX, 1.0, 1e6])
+        rel = rng.choice(RELS + [1e-5, 1e-4, 1e-3])
+        l = [_fin(c * (1 + rel * rng.gauss(0, 1))) for _ in range(n)]
+    elif cls == "straddle":         # about half of the data below zero, half above: the middle order statistics have opposite signs
+        s = rng.choice([DBL_MAX, 2.0 ** 1023, 2.0 ** rng.randint(-1070, 1023), 10 ** rng.uniform(-300, 308.2), 1.0])
+        k = n // 2 if rng.random() < 0.7 else rng.randint(0, n)
+        l = [_fin((-1 if j < k else 1) * s * rng.uniform(0.3, 1.0)) for j in range(n)]; rng.shuffle(l)
+    elif cls == "top":              # the upper end of the range, one or both signs
+        lo, hi = rng.choice([(0.25, 1.0), (-1.0, -0.25), (-1.0, 1.0), (0.9, 1.0), (1e-3, 1.0)])
+        l = [DBL_MAX * rng.uniform(lo, hi) for _ in range(n)]
+    else:
+        scale = 10 ** rng.uniform(-3, 6); off = rng.choice([0.0, 1.0, -1e3, 1e6]) * rng.random()
+        l = [off + scale * rng.gauss(0, 1) for _ in range(n)]
+    if n > 1 and rng.random() < 0.2: l[rng.randrange(n)] = l[rng.randrange(n)]
+    return cls, l
+
+
+def unit_data(rng, n):
+    """moderate data (non-zero magnitudes between 2^-20 and 2^20) for the exact scaling laws"""
+    kind = rng.choice(["half-integers", "generic", "straddle", "offset"])
+    if kind == "half-integers": l = [rng.randint(-12, 12) * 0.5 for _ in range(n)]
+    elif kind == "generic": l = [rng.uniform(-8, 8) for _ in range(n)]
+    elif kind == "straddle": l = [(-1 if j < n // 2 else 1) * rng.uniform(0.6, 2.0) for j in range(n)]; rng.shuffle(l)
+    else:
+        c = rng.choice([-1, 1]) * rng.choice([1.0, 1000.0, 2.0 ** 19]); rel = rng.choice([1e-12, 1e-9, 1e-6, 1e-3])
+        l = [c * (1 + rel * rng.gauss(0, 1)) for _ in range(n)]
+    l = [x if (x == 0.0 or 2.0 ** -20 <= abs(x) <= 2.0 ** 20) else 1.0 for x in l]
+    return kind, l
+
+
+def scale_exponent(rng, l, lo=-1074, hi=1023):
+    """an exponent e such that 2^e * l stays finite: from a ladder that reaches both ends of the range"""
+    mx = max(abs(x) for x in l) or 1.0
+    top = hi - math.frexp(mx)[1]              # 2^top * mx < 2^hi
+    e = rng.choice([top, top - rng.randint(0, 3), top - rng.randint(0, 60), rng.randint(lo, top), rng.randint(-60, 60), lo - math.frexp(mx)[1] + rng.randint(0, 60), 0])
+    return max(-1074, lo - 60, min(top, e, 1023))
+
+
+def stat_cases(rng, count):
+    cs = []
+    for _ in range(count):
+        n = rng.choice([1, 2, 2, 2, 3, 4, 4, 5, 6, 8, 9, 10, 31, 32, rng.randint(2, 200)])
+        cls, d = stat_data(rng, n)
+        tg = ("stat-wide", "stat-" + cls)
+        for op in ("mean", "median", "median2") + (("variance", "stddev") if n >= 2 else ()):
+            cs.append(Case(f"{op} {flist(d)}", (op,) + tg, tol=(1e-9, 1e-320)))
+        if n >= 2 and rng.random() < 0.5:
+            w = [rng.choice([1.0, 1.0, rng.uniform(0.1, 10)]) if rng.random() < 0.7 else 2.5 for _ in range(n)]
+            if rng.random() < 0.4: w = [w[0]] * n
+            cs.append(Case(f"wavg {n} " + " ".join(f"{hx(a)} {hx(b)}" for a, b in zip(d, w)), ("wavg",) + tg, tol=(1e-6, 1e-320)))
+        if rng.random() < 0.3:
+            cs.append(Case(f"wavg1 {flist(d)}", ("wavg1",) + tg, tol=(1e-6, 1e-320)))
+    return cs
+
+
+def law_cases(rng, count):
+    cs = []
+    for _ in range(count):
+        n = rng.choice([1, 2, 2, 3, 4, 4, 5, 6, 7, 8, 16, 17, rng.randint(2, 64)])
+        if rng.random() < 0.7: kind, d = unit_data(rng, n)
+        else: kind, d = stat_data(rng, n)
+        e = scale_exponent(rng, d)
+        p = math.ldexp(rng.choice([1.0, 1.0, -1.0]), e) if rng.random() < 0.85 else _fin(math.ldexp(rng.uniform(0.5, 1.0), e))
+        # shift: an integer for half-integer data (the shifted data are exact), else anything of the order of the data or far larger
+        mx = max(abs(x) for x in d) or 1.0
+        t = float(rng.randint(-50, 50)) if kind == "half-integers" else rng.choice([0.0, rng.uniform(-1, 1) * mx, rng.choice([-1, 1]) * mx * 10 ** rng.uniform(0, 12), 1.0])
+        t = _fin(t)
+        if not all(finite(x + t) for x in d): t = 0.0
+        k = rng.randint(0, n)
+        cs.append(Case(f"laws {flist(d)} {hx(p)} {hx(t)} {k}", ("laws", "laws-" + kind, "laws-pow2" if _pow2(p) else "laws-generic-factor"), tol=(1e-9, 1e-320)))
+    return cs
+
+
+def wlaw_cases(rng, count):
+    cs = []
+    for _ in range(count):
+        n = rng.choice([2, 2, 3, 4, 5, 8, 16, rng.randint(2, 64)])
+        kind, v = unit_data(rng, n)
+        w = [rng.choice([1.0, 1.0, rng.uniform(0.1, 10)]) if rng.random() < 0.7 else 2.5 for _ in range(n)]
+        if rng.random() < 0.3: w = [w[0]] * n
+        e = scale_exponent(rng, v, lo=-1060, hi=1015)
+        p = math.ldexp(rng.choice([1.0, 1.0, -1.0]), e)
+        q = math.ldexp(1.0, rng.choice([0, 1, -1, rng.randint(-200, 200)]))
+        k = rng.randint(0, n)
+        cs.append(Case(f"wlaws {n} " + " ".join(f"{hx(a)} {hx(b)}" for a, b in zip(v, w)) + f" {hx(p)} {hx(q)} {k}", ("wlaws", "wlaws-" + kind), tol=(1e-6, 1e-320)))
+    return cs
+
+
+DPOOL = [0.0, -0.0, 1.0, -1.0, 2.5, math.nan, math.inf, -math.inf, 5e-324, -5e-324, DBL_MAX, -DBL_MAX, 1.0 + 2.0 ** -52, 3.0]
+
+
+def dlist_cases(rng, count):
+    """the list templates instantiated at double; elements include signed zeros (equal), NaN (unequal to itself), infinities"""
+    cs = []
+    def dl(n): return [rng.choice(DPOOL) for _ in range(n)]
+    for _ in range(count):
+        n = rng.choice([0, 1, 2, 3, 5, 9])
+        a = dl(n); b = list(a) if rng.random() < 0.5 else dl(rng.choice([n, n, max(0, n - 1), n + 1]))
+        if b and rng.random() < 0.3: b[rng.randrange(len(b))] = rng.choice(DPOOL)
+        if b and rng.random() < 0.3:
+            j = rng.randrange(len(b)); b[j] = -b[j] if b[j] == 0.0 else b[j]          # +0.0 against -0.0
+        x = rng.choice(a) if a and rng.random() < 0.6 else rng.choice(DPOOL)
+        cs.append(Case(f"lists_equal_d {flist(a)} {flist(b)}", ("lists_equal_d", "double")))
+        cs.append(Case(f"combine_d {flist(a)} {flist(b)}", ("combine_d", "double")))
+        cs.append(Case(f"contains_d {flist(a)} {hx(x)}", ("contains_d", "double")))
+        cs.append(Case(f"find_indices_d {flist(a)} {hx(x)}", ("find_indices_d", "double")))
+        rows = rng.choice([0, 1, 2, 3]); tab = [dl(rng.choice([0, 1, 2, 4])) for _ in range(rows)]
+        cs.append(Case(f"flatten_d {rows} " + " ".join(flist(r) for r in tab), ("flatten_d", "double")))
+        tab2 = [list(r) for r in tab] if rng.random() < 0.6 else [dl(rng.choice([0, 1, 2, 4])) for _ in range(rng.choice([rows, rows + 1]))]
+        if tab2 and tab2[-1] and rng.random() < 0.3: tab2[-1][-1] = rng.choice(DPOOL)
+        cs.append(Case(f"lists_equal2_d {rows} " + " ".join(flist(r) for r in tab) + f" {len(tab2)} " + " ".join(flist(r) for r in tab2), ("lists_equal2_d", "double")))
+        m = rng.choice([1, 2, 3, 6]); v = dl(m)
+        i1 = rng.choice([-2, -1, 0, 1, m - 1, m, m + 1]); i2 = rng.choice([0, 1, m - 2, m - 1, m, m + 1, 4294967295]); i2 = max(i2, 0)
+        cs.append(Case(f"sub_list_d {flist(v)} {i1} {i2}", ("sub_list_d", "double")))
+        rr = rng.choice([1, 2, 3]); cc = rng.choice([0, 1, 2, 4]); tab = [dl(cc) for _ in range(rr)]
+        if rr > 1 and rng.random() < 0.3: tab[rng.randrange(1, rr)] = dl(cc + rng.choice([-1, 1]) if cc > 0 else 1)
+        cs.append(Case(f"transpose_d {rr} " + " ".join(flist(r) for r in tab), ("transpose_d", "double")))
+        c = dl(len(a) if rng.random() < 0.7 else rng.choice([0, 1, len(a) + 1]))
+        cs.append(Case(f"transpose2_d {flist(a)} {flist(c)}", ("transpose2_d", "double")))
+    return cs
+
+
+def overload_cases(rng, big):
+    cs = []
+    # Range(max): the whole stated domain and beyond; Range(min, max): default step
+    for b in list(range(-40, 41)) + [-1000, -129, -64, 64, 129, 1000, rng.randint(-5000, 5000)]:
+        cs.append(Case(f"range1 {b}", ("range1", "overload")))
+    lim = 40 if big else 13
+    for a in range(-lim, lim + 1):
+        for b in range(-lim, lim + 1):
+            cs.append(Case(f"range2 {a} {b}", ("range2", "overload")))
+    for _ in range(0 if big else 300):
+        cs.append(Case(f"range2 {rng.randint(-40, 40)} {rng.randint(-40, 40)}", ("range2", "overload")))
+    def il(n): return [rng.randint(-3, 3) for _ in range(n)]
+    for _ in range(2000 if big else 300):
+        rows = rng.choice([0, 1, 2, 3, 4]); tab = [il(rng.choice([0, 1, 2, 4])) for _ in range(rows)]
+        r = rng.random()
+        if r < 0.5: tab2 = [list(x) for x in tab]
+        elif r < 0.7: tab2 = [list(x) for x in tab][:-1] if tab else [[]]
+        else: tab2 = [il(len(x)) if rng.random() < 0.5 else list(x) for x in tab]
+        if tab2 and rng.random() < 0.3:
+            j = rng.randrange(len(tab2))
+            if tab2[j] and rng.random() < 0.7: tab2[j][rng.randrange(len(tab2[j]))] += 1
+            else: tab2[j] = tab2[j] + [0]                                # same flattened content is possible, different shape
+        if len(tab) >= 2 and rng.random() < 0.1:                        # same elements, different row boundaries
+            fl = [y for x in tab for y in x]; cut = rng.randint(0, len(fl)); tab2 = [fl[:cut], fl[cut:]] + [[] for _ in tab[2:]]
+        cs.append(Case(f"lists_equal2 {len(tab)} " + " ".join(ilist(x) for x in tab) + f" {len(tab2)} " + " ".join(ilist(x) for x in tab2), ("lists_equal2", "overload")))
+        n = rng.choice([0, 1, 2, 3, 5, 9]); a = il(n); b = il(n if rng.random() < 0.75 else rng.choice([0, max(0, n - 1), n + 1]))
+        cs.append(Case(f"transpose2 {ilist(a)} {ilist(b)}", ("transpose2", "overload")))
+    return cs
+
+
 def generate(rng, tier):
     cs = []
     big = tier != "quick"
@@ -217,6 +527,10 @@ def generate(rng, tier):
         tab = [il(cc) for _ in range(rr)]
         if rr > 1 and rng.random() < 0.3: tab[rng.randrange(1, rr)] = il(cc + rng.choice([-1, 1]) if cc > 0 else 1)
         cs.append(Case(f"transpose {rr} " + " ".join(ilist(r) for r in tab), ("transpose",)))
+        if rng.random() < 0.15:      # the ends of the index types
+            i1 = rng.choice([-2147483648, 2147483647, -2147483647, 2147483646]) if rng.random() < 0.5 else i1
+            i2 = rng.choice([2147483647, 2147483648, 4294967294, 4294967295]) if rng.random() < 0.7 else i2
+            cs.append(Case(f"sub_list {ilist(v)} {i1} {i2}", ("sub_list", "index-extremes")))
     cs.append(Case("sub_list 0 0 0", ("sub_list", "empty")))
     cs.append(Case("sub_list 0 2 5", ("sub_list", "empty")))
     # statistics
@@ -230,6 +544,13 @@ def generate(rng, tier):
         w = [rng.choice([1.0, 1.0, rng.uniform(0.1, 10)]) if rng.random() < 0.7 else 2.5 for _ in range(n)]
         if rng.random() < 0.3: w = [w[0]] * n
         cs.append(Case(f"wavg {n} " + " ".join(f"{hx(a)} {hx(b)}" for a, b in zip(d, w)), ("wavg",), tol=(1e-7, 1e-300)))
+    # every other way of calling the helpers (overloads, default arguments), the templates at double
+    cs += overload_cases(rng, big)
+    cs += dlist_cases(rng, 1500 if big else 150)
+    # statistics over the whole double range, and the laws inside one process
+    cs += stat_cases(rng, 3000 if big else 260)
+    cs += law_cases(rng, 3000 if big else 260)
+    cs += wlaw_cases(rng, 1500 if big else 150)
     return cs
 
 
@@ -245,7 +566,9 @@ def nontrivial(c, io):
     if op == "sub_list":
         n = int(t[1]); i1 = int(t[2 + n]); i2 = int(t[3 + n]); return i1 < 0 or i2 >= n
     if op == "transpose": return int(t[1]) > 1 and int(t[2]) > 1
-    if op in ("mean", "variance", "stddev", "median", "wavg"): return int(t[1]) >= 3
+    if op in ("mean", "variance", "stddev", "median", "wavg", "median2", "wavg1", "laws", "wlaws"): return int(t[1]) >= 3
+    if op == "range1": return abs(int(t[1])) >= 2
+    if op == "range2": return abs(int(t[2]) - int(t[1])) >= 2
     return len(t) > 3
 
 
@@ -345,19 +668,148 @@ def predicates(c, io):
                 exp = [len(tr)] + [y for col in tr for y in [len(col)] + col]; got = v
         if got != exp: out.append((op + ":definition", f"{op} disagrees with its element-wise definition: expected {exp[:12]}, got {got[:12]}"))
     elif op in ("mean", "variance", "stddev", "median"):
-        pv = parse_vals(c.line)[1:]; n = pv[0]; d = pv[1:1 + n]; got = v[0] if v else math.nan
-        m = math.fsum(d) / n; sc = max(abs(x) for x in d)
-        if op == "mean": exp = m; tol = 1e-12 * sc
-        elif op == "variance": exp = math.fsum((x - m) ** 2 for x in d) / (n - 1); tol = 1e-10 * sc * sc
-        elif op == "stddev": exp = math.sqrt(math.fsum((x - m) ** 2 for x in d) / (n - 1)); tol = 1e-10 * sc
+        pv = parse_vals(c.line)[1:]; n = pv[0]; d = [float(x) for x in pv[1:1 + n]]; got = v[0] if v else math.nan
+        out += stat_check(op, StatRef(d), got)
+    elif op == "median2":
+        pv = parse_vals(c.line)[1:]; n = pv[0]; d = [float(x) for x in pv[1:1 + n]]
+        if len(v) != n + 3: return [("median2:shape", f"expected two values and the vector, got {io[:60]}")]
+        ref = StatRef(d)
+        out += stat_check("median", ref, v[0], "median2", " (first call)")
+        out += stat_check("median", ref, v[1], "median2", " (second call on the reordered vector)")
+        if not (v[0] == v[1] or (v[0] != v[0] and v[1] != v[1])): out.append(("median2:repeat", f"Median of the same vector object: {v[0]!r}, then {v[1]!r}"))
+        if v[2] != n or sorted(map(_key, v[3:])) != sorted(map(_key, d)):
+            out.append(("median2:permutation", f"after Median the caller's vector is no longer a permutation of the data: {sorted(v[3:])[:6]} against {sorted(d)[:6]}"))
+    elif op in ("wavg", "wavg1"):
+        pv = parse_vals(c.line)[1:]; n = pv[0]
+        if op == "wavg":
+            dd = [float(x) for x in pv[1:1 + 2 * n]]; vals = dd[0::2]; ws = dd[1::2]; got = v[:2]
         else:
-            s = sorted(d); exp = s[n // 2] if n % 2 else (s[n // 2 - 1] + s[n // 2]) / 2; tol = 1e-15 * sc
-        if not (abs(got - exp) <= tol): out.append((op + ":definition", f"{op} = {got!r}, definition gives {exp!r}"))
-    elif op == "wavg":
-        pv = parse_vals(c.line)[1:]; n = pv[0]; d = pv[1:1 + 2 * n]; vals = d[0::2]; ws = d[1::2]
-        exp = math.fsum(a * b for a, b in zip(vals, ws)) / math.fsum(ws); sc = max(abs(x) for x in vals)
-        if not (abs(v[0] - exp) <= 1e-11 * sc): out.append(("wavg:mean", f"weighted average {v[0]!r}, definition gives {exp!r}"))
-        if len(set(ws)) == 1 and n >= 2:
-            m = math.fsum(vals) / n; se = math.sqrt(math.fsum((x - m) ** 2 for x in vals) / (n - 1) / n)
-            if not (abs(v[1] - se) <= 1e-6 * se + 1e-9 * sc): out.append(("wavg:equal-weights", f"equal weights: standard error {v[1]!r}, s/sqrt(N) = {se!r}"))
+            vals = [float(x) for x in pv[1:1 + n]]; ws = [1.0] * n
+            if len(v) != 4 or v[0] != 2 or v[3] != 1: return [("wavg1:shape", f"expected two results and unchanged data, got {io[:60]}")]
+            got = v[1:3]
+        if len(got) != 2: return [(op + ":shape", f"expected (average, standard error), got {io[:60]}")]
+        ref = WavgRef(vals, ws)
+        out += ref.check(got[0], got[1], op)
+        if ref.ok and len(set(ws)) == 1 and n >= 2:
+            # equal weights (for wavg1: the default weight): (Arithmetic_Mean, s / sqrt N), to the cancellation bound of the first pass and the underflow allowance
+            sr = StatRef(vals); var, tolv, reg = sr.variance()
+            se = float(sqrt_bounds(var / n)[0]) if var / n <= FMAX else math.inf; sc = max(abs(x) for x in vals)
+            uf = float(sqrt_bounds(2 * (n + 2) * TINY * (3 + 2 * abs(ref.avg) + ref.avg ** 2))[1] / ref.W)
+            if finite(se) and not ref.reg_se and not (finite(got[1]) and abs(got[1] - se) <= 1e-6 * se + 1e-9 * sc + uf):
+                out.append((op + ":equal-weights", f"equal weights: standard error {got[1]!r}, s/sqrt(N) = {se!r}"))
+    elif op == "laws":
+        pv = parse_vals(c.line)[1:]; n = pv[0]; d = [float(x) for x in pv[1:1 + n]]; pf, tf, k = float(pv[1 + n]), float(pv[2 + n]), pv[3 + n]
+        if len(v) != 16: return [("laws:shape", f"expected 16 values, got {io[:60]}")]
+        y = [pf * x for x in d]; z = [x + tf for x in d]; w = d[k:] + d[:k]
+        if not all(finite(x) for x in y + z): return out           # outside the quantifier (the generator does not produce it)
+        names = ("mean", "variance", "stddev", "median"); refs = {}
+        for tag, data, off in (("data", d, 0), ("scaled", y, 4), ("shifted", z, 8), ("rotated", w, 12)):
+            refs[tag] = StatRef(data)
+            for q, nm in enumerate(names):
+                out += stat_check(nm, refs[tag], v[off + q], f"laws:{tag}-{nm}", f" of the {tag} data" if tag != "data" else "")
+        # permutation: the median is a function of the multiset (exactly)
+        if not _same(v[3], v[15]): out.append(("laws:permutation-median", f"Median of the rotated data {v[15]!r} differs from Median of the data {v[3]!r}"))
+        # scaling by a power of two commutes with every rounding while nothing overflows or becomes subnormal:
+        # every non-zero intermediate of mean / two-pass variance / midpoint is at least 2^-114 min|x| (squares: 2^-228 min|x|^2)
+        nz = [abs(x) for x in d + y if x != 0.0]
+        if _pow2(pf) and (not nz or min(nz) >= 2.0 ** -390) and not any(refs[t_].mean()[2] or (n >= 2 and refs[t_].variance()[2]) or refs[t_].median()[2] for t_ in ("data", "scaled")):
+            fac = (pf, pf * pf, abs(pf), pf)
+            for q, nm in enumerate(names):
+                if nm in ("variance", "stddev") and n < 2: continue
+                a, b = v[q], v[4 + q]
+                if not finite(a): continue
+                try: e = a * fac[q] if nm != "variance" else (a * pf) * pf
+                except OverflowError: continue
+                if not finite(e) or (e != 0.0 and abs(e) < DBL_MIN) or (nm == "variance" and a != 0.0 and abs(a * pf) < DBL_MIN): continue
+                if not _same(b, e): out.append((f"laws:scaling-{nm}", f"{STAT_NAME[nm]}(c x) = {b!r} but {'c^2' if nm == 'variance' else ('|c|' if nm == 'stddev' else 'c')} {STAT_NAME[nm]}(x) = {e!r} for the power of two c = {pf!r} (no rounding is involved)"))
+        # reduction: the median of two data is their arithmetic mean (to the rounding of either)
+        if n == 2 and not refs["data"].mean()[2] and not refs["data"].median()[2]:
+            tl = refs["data"].mean()[1] + refs["data"].median()[1]
+            if not (finite(v[0]) and finite(v[3]) and abs(Fraction(v[0]) - Fraction(v[3])) <= tl):
+                out.append(("laws:median-pair", f"Median({{a,b}}) = {v[3]!r} but Arithmetic_Mean({{a,b}}) = {v[0]!r}"))
+    elif op == "wlaws":
+        pv = parse_vals(c.line)[1:]; n = pv[0]; dd = [float(x) for x in pv[1:1 + 2 * n]]; vals = dd[0::2]; ws = dd[1::2]
+        pf, qf, k = float(pv[1 + 2 * n]), float(pv[2 + 2 * n]), pv[3 + 2 * n]
+        if len(v) != 16 or any(v[4 * q] != 2 for q in range(4)): return [("wlaws:shape", f"expected four (2, average, standard error, flag) groups, got {io[:60]}")]
+        if any(v[4 * q + 3] != 1 for q in range(4)): out.append(("wlaws:data-unchanged", "Weighted_Average changed the data it was handed by reference"))
+        sets = (("data", vals, ws), ("scaled-values", [pf * x for x in vals], ws), ("scaled-weights", vals, [qf * x for x in ws]), ("rotated", vals[k:] + vals[:k], ws[k:] + ws[:k]))
+        refs = {}
+        for q, (tag, a, b) in enumerate(sets):
+            if not all(finite(x) for x in a + b): return out
+            refs[tag] = WavgRef(a, b)
+            out += refs[tag].check(v[4 * q + 1], v[4 * q + 2], f"wlaws:{tag}", f" of the {tag}" if tag != "data" else "")
+        # exact laws for powers of two, in the window where no intermediate of Cochran's sums can be subnormal or overflow:
+        # every non-zero intermediate is at least 2^-330 min|p w v|^2 (see the derivation in the report), the largest at most 2^12 M^2 max(1, 4/W^2)
+        nzv = [abs(a * b) for a, b in zip(vals, ws) if a != 0.0]
+        def window(ref, lo):
+            M = max(abs(x) for x in ref.vals) * max(ref.ws)
+            return lo >= 2.0 ** -330 and ref.ok and Fraction(2 ** 12) * Fraction(M) ** 2 * max(1, 4 / (ref.W * ref.W)) < FMAX and not ref.reg_se
+        lo0 = min(nzv) if nzv else 1.0
+        if _pow2(pf) and window(refs["data"], lo0) and window(refs["scaled-values"], lo0 * abs(pf)) and finite(v[1]) and finite(v[2]):
+            for q, nm, e in ((1, "average", v[1] * pf), (2, "standard error", v[2] * abs(pf))):
+                if finite(e) and (e == 0.0 or abs(e) >= DBL_MIN) and not _same(v[4 + q], e):
+                    out.append(("wlaws:scaling-values", f"values scaled by the power of two {pf!r}: {nm} {v[4 + q]!r}, expected exactly {e!r}"))
+        if _pow2(qf) and 2.0 ** -200 <= qf <= 2.0 ** 200 and window(refs["data"], lo0) and window(refs["scaled-weights"], lo0 * qf) and finite(v[1]) and finite(v[2]):
+            for q, nm in ((1, "average"), (2, "standard error")):
+                if not _same(v[8 + q], v[q]):
+                    out.append(("wlaws:scaling-weights", f"weights scaled by the power of two {qf!r}: {nm} {v[8 + q]!r}, expected exactly {v[q]!r}"))
+    elif op in ("range1", "range2"):
+        a, b = (0, int(t[1])) if op == "range1" else (int(t[1]), int(t[2]))
+        exp = list(range(a, b, 1 if a < b else -1))
+        if io.startswith("EXIT") or v[1:] != exp or v[0] != len(exp):
+            out.append((op + ":enumeration", f"Range({t[1]}{',' + t[2] if op == 'range2' else ''}) should enumerate the half-open range {exp[:8]}{'...' if len(exp) > 8 else ''} ({len(exp)} elements), got {v[1:9]} ({v[0] if v else '?'} elements)"))
+    elif op in ("lists_equal2", "transpose2"):
+        pz = [int(x) for x in t[1:]]
+        def rd(k_):
+            n_ = pz[k_]; return pz[k_ + 1:k_ + 1 + n_], k_ + 1 + n_
+        def rdt(k_):
+            rows = pz[k_]; k_ += 1; tab = []
+            for _ in range(rows):
+                r_, k_ = rd(k_); tab.append(r_)
+            return tab, k_
+        if op == "lists_equal2":
+            ta, k_ = rdt(0); tb, k_ = rdt(k_); exp = [1 if ta == tb else 0]; got = v
+        else:
+            a, k_ = rd(0); b, k_ = rd(k_)
+            if len(a) != len(b): exp = ["EXIT"]; got = v[:1]
+            else: exp = [len(a)] + [y for pr in zip(a, b) for y in (2,) + pr]; got = v
+        if got != exp: out.append((op + ":definition", f"{op} disagrees with its element-wise definition: expected {exp[:12]}, got {got[:12]}"))
+    elif op.endswith("_d"):
+        pz = parse_vals(c.line)[1:]
+        def rd(k_):
+            n_ = pz[k_]; return [float(x) for x in pz[k_ + 1:k_ + 1 + n_]], k_ + 1 + n_
+        def rdt(k_):
+            rows = pz[k_]; k_ += 1; tab = []
+            for _ in range(rows):
+                r_, k_ = rd(k_); tab.append(r_)
+            return tab, k_
+        def eq(a, b): return len(a) == len(b) and all(x == y for x, y in zip(a, b))       # IEEE ==: -0.0 == 0.0, NaN != NaN
+        def enc(l): return [len(l)] + [_key(x) for x in l]
+        got = [(_key(x) if isinstance(x, float) else x) for x in v]
+        if op == "lists_equal_d":
+            a, k_ = rd(0); b, k_ = rd(k_); exp = [1 if eq(a, b) else 0]
+        elif op == "lists_equal2_d":
+            ta, k_ = rdt(0); tb, k_ = rdt(k_); exp = [1 if len(ta) == len(tb) and all(eq(x, y) for x, y in zip(ta, tb)) else 0]
+        elif op == "combine_d":
+            a, k_ = rd(0); b, k_ = rd(k_); exp = enc(a + b)
+        elif op == "flatten_d":
+            tab, k_ = rdt(0); exp = enc([y for r_ in tab for y in r_])
+        elif op == "contains_d":
+            a, k_ = rd(0); x = float(pz[k_]); exp = [1 if any(y == x for y in a) else 0]
+        elif op == "find_indices_d":
+            a, k_ = rd(0); x = float(pz[k_]); idx = [i_ for i_, y in enumerate(a) if y == x]; exp = [len(idx)] + idx
+        elif op == "sub_list_d":
+            a, k_ = rd(0); i1, i2 = pz[k_], pz[k_ + 1]; i1 = max(i1, 0)
+            exp = enc(a[i1:min(i2, len(a) - 1) + 1] if (a and i1 < len(a) and i2 >= i1) else [])
+        elif op == "transpose_d":
+            tab, k_ = rdt(0)
+            if len(set(len(r_) for r_ in tab)) > 1: exp = ["EXIT"]; got = got[:1]
+            else:
+                tr = [list(col) for col in zip(*tab)] if tab and tab[0] else []
+                exp = [len(tr)] + [y for col in tr for y in enc(col)]
+        else:
+            a, k_ = rd(0); b, k_ = rd(k_)
+            if len(a) != len(b): exp = ["EXIT"]; got = got[:1]
+            else: exp = [len(a)] + [y for pr in zip(a, b) for y in enc(list(pr))]
+        if got != exp: out.append((op + ":definition", f"{op[:-2]} at double disagrees with its element-wise definition: expected {exp[:12]}, got {got[:12]}"))
     return out
